@@ -331,6 +331,9 @@ const NAME_QUERIES: &[&str] = &[
     "SELECT v, v, COUNT(*) FROM t GROUP BY v", "SELECT COUNT(*), COUNT(*) FROM t", "SELECT COUNT(*) AS n, SUM(v) AS n FROM t", "SELECT k, COUNT(*) AS k FROM t GROUP BY k",
     "SELECT MAX(v), MAX(v) + 1, MIN(w) AS p1 FROM t", "SELECT v + 1, COUNT(*) FROM t GROUP BY v + 1", "SELECT * FROM t", "SELECT DISTINCT k, k FROM t",
     "SELECT r, r * 2.5, r / 3.0 FROM t WHERE r IS NOT NULL", "SELECT AVG(r), SUM(r), STDDEV(v), VARIANCE(r) FROM t", "SELECT create_array(r, 0.1), k FROM t",
+    // conditions that are not BOOLEAN (D69): the run reports an error on the first row / group where such a condition is evaluated and not NULL
+    "SELECT k FROM t WHERE v + 1", "SELECT k, v FROM t WHERE s", "SELECT k, (CASE WHEN v THEN 1 ELSE 0 END) AS c FROM t", "SELECT k, v AND w > 0 FROM t",
+    "SELECT k, COUNT(*) FROM t GROUP BY k HAVING SUM(v)", "SELECT COUNT(*) FROM t WHERE w", "SELECT k, w > 0 OR v FROM t",
 ];
 
 const WIDE: &[&str] = &[
